@@ -59,6 +59,13 @@ async fn verif_replay_hist_admission() {
                 let what = format!("{} on {target:?} with declared outputs supplied {:?}", ev.as_ref(), declared.iter().enumerate().filter(|(i, _)| mask & (1 << i) != 0).map(|(_, k)| *k).collect::<Vec<_>>());
                 let admissible = target == Target::OpenAct && mask == 7;
                 if r.is_ok() && !admissible { bad.push(format!("REPLAY-FAIL {what}: accepted, but the action is not admissible")); }
+                if r.is_err() && (target == Target::OpenAct) {
+                    // C09: "while it is neither acknowledged nor closed by an action on its task it is redelivered": a REFUSED action closes nothing --
+                    // the messages of the act that were waiting for an answer are still waiting
+                    let closed: Vec<String> = rt.cache().store().messages().query(&crate::store::query::Query::new().push(crate::store::query::Cond::and().push(crate::store::query::Expr::eq("tid", ttid.clone()))).set_limit(100)).map(|p| p.rows).unwrap_or_default()
+                        .into_iter().filter(|m| m.pid == tpid && m.status == crate::data::MessageStatus::Completed).map(|m| m.id).collect();
+                    if !closed.is_empty() { bad.push(format!("REPLAY-FAIL {what}: rejected, yet {} stored message(s) of the act were closed (they will never be delivered again)", closed.len())); }
+                }
                 if r.is_err() {
                     let after: Vec<(String, TaskState)> = proc.tasks().iter().map(|t| (t.id.clone(), t.state())).collect();
                     if after != before { bad.push(format!("REPLAY-FAIL {what}: rejected, yet tasks changed: {before:?} -> {after:?}")); }
@@ -66,6 +73,31 @@ async fn verif_replay_hist_admission() {
                 }
             }
         }
+    }
+    // actions that Task::update itself refuses on an OPEN act (error without a code, back without a target, back to an unknown step): nothing changes,
+    // and the stored message of the act stays open (C09: it is redelivered until it is acknowledged or closed by an ACCEPTED action)
+    {
+        let mut workflow = Workflow::new().with_step(|s| s.with_id("step1").with_act(Act::irq(|a| a.with_key("a")).with_id("a")));
+        let pid = utils::longid();
+        let (proc, rt, _emitter, _tx, _rx) = create_proc_signal::<()>(&mut workflow, &pid);
+        rt.launch(&proc);
+        for _ in 0..200 { if proc.task_by_nid("a").first().map(|t| t.state() == TaskState::Interrupt).unwrap_or(false) { break; } tokio::time::sleep(std::time::Duration::from_millis(10)).await; }
+        tokio::time::sleep(std::time::Duration::from_millis(100)).await;
+        if let Some(a) = proc.task_by_nid("a").first() {
+            let stored = || rt.cache().store().messages().query(&crate::store::query::Query::new().push(crate::store::query::Cond::and().push(crate::store::query::Expr::eq("tid", a.id.clone()))).set_limit(100)).map(|p| p.rows).unwrap_or_default()
+                .into_iter().filter(|m| m.pid == pid).map(|m| format!("{}:{:?}", m.key, m.status)).collect::<Vec<_>>();
+            let before_msgs = stored();
+            for (what, ev, o) in [("error without a code", EventAction::Error, Vars::new()), ("back without a target", EventAction::Back, Vars::new()), ("back to an unknown step", EventAction::Back, Vars::new().with("to", "no-such-step"))] {
+                let before: Vec<(String, TaskState)> = proc.tasks().iter().map(|t| (t.id.clone(), t.state())).collect();
+                let r = rt.do_action(&Action::new(&pid, &a.id, ev, &o));
+                tokio::time::sleep(std::time::Duration::from_millis(80)).await;
+                if r.is_ok() { bad.push(format!("REPLAY-FAIL {what} on an open act: accepted")); continue; }
+                let after: Vec<(String, TaskState)> = proc.tasks().iter().map(|t| (t.id.clone(), t.state())).collect();
+                if after != before { bad.push(format!("REPLAY-FAIL {what} on an open act: rejected, yet tasks changed: {before:?} -> {after:?}")); }
+                let now = stored();
+                if now != before_msgs { bad.push(format!("REPLAY-FAIL {what} on an open act: rejected, yet the stored messages of the act changed {before_msgs:?} -> {now:?} (a closed message is never delivered again)")); }
+            }
+        } else { bad.push("REPLAY-FAIL setup: act `a` did not open".into()); }
     }
     // push is for steps: aimed at an act it is refused
     {
